@@ -288,6 +288,34 @@ fn check_fields_inner(fields: &[(String, String)], want: &[ASong], case: &Value,
     }
 }
 
+fn check_entry_points_agree(fields: &[(String, String)], acc: &mut Acc) {
+    let frame = || make_frames(&[AFrame { fields: fields.to_vec(), binary: None }], false).remove(0);
+    acc.listings += 1;
+    acc.nontrivial += 1;
+    let queued: Vec<(&str, Result<Result<Vec<ASong>, String>, String>)> = vec![
+        ("playlistinfo", catch(|| c::Queue.response(frame()).map(|v| v.iter().map(observe_queued).collect()).map_err(|e| e.to_string()))),
+        ("currentsong", catch(|| c::CurrentSong.response(frame()).map(|v| v.iter().map(observe_queued).collect()).map_err(|e| e.to_string()))),
+        ("playlistid", catch(|| c::Queue::song(c::SongId(5)).response(frame()).map(|v| v.iter().map(observe_queued).collect()).map_err(|e| e.to_string()))),
+    ];
+    let plain: Vec<(&str, Result<Result<Vec<ASong>, String>, String>)> = vec![
+        ("find", catch(|| c::Find::new(mpd_client::filter::Filter::tag(mpd_client::tag::Tag::Artist, "x")).response(frame()).map(|v| v.iter().map(observe_song).collect()).map_err(|e| e.to_string()))),
+        ("listplaylistinfo", catch(|| c::GetPlaylist("p").response(frame()).map(|v| v.iter().map(observe_song).collect()).map_err(|e| e.to_string()))),
+        ("listallinfo", catch(|| c::ListAllIn::root().response(frame()).map(|v| v.iter().map(observe_song).collect()).map_err(|e| e.to_string()))),
+    ];
+    for group in [queued, plain] {
+        acc.decodes += group.len() as u64;
+        for (name, r) in &group[1..] {
+            if *r != group[0].1 {
+                acc.viol.push(Violation::new(
+                    "C14/entry-points-disagree",
+                    format!("the reply {:?} decodes to {:?} through {} but to {:?} through {name}", fields.iter().map(|(k, v)| format!("{k}: {v}")).collect::<Vec<_>>(), group[0].1, group[0].0, r),
+                    json!({"entry_points_fields": fields}),
+                ));
+            }
+        }
+    }
+}
+
 fn big_song_case(n: usize, acc: &mut Acc, verbose: bool) {
     let names = ["Performer", "Artist", "Genre", "Composer", "X-Custom"];
     let mut fields: Vec<(String, String)> = vec![("file".into(), "big.flac".into())];
@@ -434,6 +462,19 @@ pub fn run(tier: Tier) -> i32 {
     for n in [20usize, 21, 32, 33, 34, 40, 64, 100, 300] {
         big_song_case(n, &mut acc3, false);
     }
+    // (round 7) one-song replies in which an attribute line occurs twice (MPD does not do that, so no value is
+    // "the" right one - but the reply is the same song whichever command asked for it): currentsong,
+    // playlistinfo and playlistid must decode it alike, and so must find / listplaylistinfo / listallinfo
+    for (key, v1, v2) in [
+        ("Format", "44100:16:2", "48000:24:2"), ("duration", "1.000", "2.500"), ("Time", "3", "4"), ("Last-Modified", "2020-06-12T17:53:00Z", "2021-01-01T00:00:00Z"),
+        ("Range", "1.000-2.000", "3.000-"), ("Prio", "1", "2"), ("Pos", "3", "4"), ("Id", "5", "6"), ("Title", "a", "b"),
+    ] {
+        for lines in [vec![(key, v1), ("Title", "t"), (key, v2)], vec![(key, v1), (key, v2)], vec![("Artist", "x"), (key, v1), (key, v2), (key, v1)]] {
+            let mut fields: Vec<(String, String)> = vec![("file".into(), "r.flac".into())];
+            fields.extend(lines.iter().map(|(k, v)| (k.to_string(), v.to_string())));
+            check_entry_points_agree(&fields, &mut acc3);
+        }
+    }
     // modification dates in other RFC 3339 spellings (offsets, fractions): the value is what the server listed
     for text in crate::props::c16::TIMESTAMP_SPELLINGS {
         let fields: Vec<(String, String)> = vec![("file".into(), "m.flac".into()), ("Last-Modified".into(), text.to_string()), ("Title".into(), "t".into())];
@@ -520,6 +561,16 @@ pub fn replay(case: &Value) -> i32 {
         let mut acc = Acc::default();
         big_song_case((n as usize).min(100_000), &mut acc, true);
         return if acc.viol.is_empty() { println!("replay: property holds on this case"); 0 } else { println!("replay: VIOLATION"); 1 };
+    }
+    if let Some(fs) = case.get("entry_points_fields").and_then(|v| v.as_array()) {
+        let fields: Vec<(String, String)> = fs.iter().filter_map(|p| Some((p.get(0)?.as_str()?.to_string(), p.get(1)?.as_str()?.to_string()))).collect();
+        println!("replay C14: reply {fields:?} through every entry point");
+        let mut acc = Acc::default();
+        check_entry_points_agree(&fields, &mut acc);
+        for (sig, (_, ex)) in &acc.viol.by_sig {
+            println!("replay: VIOLATION sig={sig}: {}", ex[0].what);
+        }
+        return if acc.viol.is_empty() { println!("replay: property holds on this case"); 0 } else { 1 };
     }
     if let Some(text) = case.get("last_modified_text").and_then(|v| v.as_str()) {
         println!("replay C14: song with Last-Modified {text}");
